@@ -21,6 +21,9 @@ COMPILERS = {"rel": "g++", "asan": "clang++", "tsan": "clang++"}
 # property table. engine "rc": a rapidcheck executable built in the `rel` flavour.
 # quick/thorough: (multiplier on each sub-check's base case count, number of parallel seeds)
 PROPS = {
+    "C12": dict(engine="rc", exe="c12", quick=(1, 6), thorough=(20, 16),
+                assumptions=["'violates the published schema' is judged against the schema emitted by the tree under test, walked by engine/schema_walk.h",
+                             "this executable runs without sanitizers; every case runs in its own process so that SIGSEGV/abort are seen; the sanitizer/fuzzing part is run by the same check (see coverage.fuzz)"]),
     "C13": dict(engine="rc", exe="c13", quick=(1, 6), thorough=(20, 16),
                 assumptions=["world parameters stay inside the physical domain (positive constants, dips in (0,180), thickness > 0); degenerate *parameters* belong to C12",
                              "a query may throw std::exception with a message; it may not crash, hang (120 s per case) or return NaN/Inf"]),
